@@ -321,4 +321,9 @@ theorem live_table_gives_tags_their_supported_parameters : Spec.ParamsExactly Ge
 theorem live_table_is_the_supported_table : Generated.builtinTable = Spec.frozenTable := by
   decide +kernel
 
+/-- the lexer rules of `sievelib/parser.py` (names, order, patterns, flags, white space) are the modelled ones -/
+theorem lexer_is_the_modelled_one :
+    Generated.lexRuleNames = TokKind.all.map TokKind.name ∧ Generated.lexRulePatterns = TokKind.patterns ∧
+      Generated.parserPatterns = TokKind.auxPatterns := by decide
+
 end C01
